@@ -564,12 +564,16 @@ func (s *Service) ApplyPlanLive(ctx context.Context, desired config.Pipeline, ha
 	// swapped live (e.g. it is parallelized): the config is already committed, so
 	// we fall through to the restart path below, which rebuilds every node from
 	// it, applying the whole diff uniformly.
+	// fellBack is set when an in-place apply committed the new config (and swapped
+	// the processors in fellBackSwapped) but has to finish as a restart.
+	var fellBack *config.Pipeline
+	var fellBackSwapped []string
 	if fresh.LiveEligible() {
 		oldConfig, err := s.Export(ctx, desired.ID)
 		if err != nil {
 			return fresh, cerrors.Errorf("could not export current config of pipeline %q for in-place apply: %w", desired.ID, err)
 		}
-		swappedAll, err := s.applyInPlace(ctx, desired, oldConfig, fresh)
+		swappedAll, swapped, err := s.applyInPlace(ctx, desired, oldConfig, fresh)
 		if err != nil {
 			return fresh, err
 		}
@@ -577,6 +581,7 @@ func (s *Service) ApplyPlanLive(ctx context.Context, desired config.Pipeline, ha
 			fresh.AppliedMode = ApplyModeInPlace
 			return fresh, nil
 		}
+		fellBack, fellBackSwapped = &oldConfig, swapped
 		// Fall through to the restart path: the config is committed, so
 		// StopAndWait -> (idempotent) import -> Start rebuilds from it. The
 		// reported mode is restart, not in_place — this is exactly the fallback
@@ -596,6 +601,13 @@ func (s *Service) ApplyPlanLive(ctx context.Context, desired config.Pipeline, ha
 	// (bypassing this package) is a separate, pre-existing surface this lock
 	// does not reach — unchanged from PR1, and out of scope here.
 	if err := s.lifecycleService.StopAndWait(ctx, desired.ID); err != nil {
+		if fellBack != nil {
+			// The in-place attempt above already committed the new config and
+			// swapped some processors, and the pipeline could not be stopped: undo
+			// it, so that a failed apply leaves the store and the still running
+			// pipeline on the old config rather than on a mix of both.
+			s.rollbackInPlace(context.WithoutCancel(ctx), desired.ID, *fellBack, fellBackSwapped)
+		}
 		return fresh, cerrors.Errorf("could not stop pipeline %q to apply live changes: %w", desired.ID, err)
 	}
 
@@ -632,7 +644,7 @@ func (s *Service) ApplyPlanLive(ctx context.Context, desired config.Pipeline, ha
 // to open), it rolls back — restoring the old config and re-swapping any
 // already-swapped processors back — so the store and the live pipeline agree on
 // the old config and the pipeline keeps running unchanged, and returns the error.
-func (s *Service) applyInPlace(ctx context.Context, desired, oldConfig config.Pipeline, diff Diff) (bool, error) {
+func (s *Service) applyInPlace(ctx context.Context, desired, oldConfig config.Pipeline, diff Diff) (bool, []string, error) {
 	// Once we commit to an in-place apply it mutates live node state that must
 	// reach a consistent end, so detach from the caller's cancellation (keeping
 	// values). Otherwise a caller context cancelled mid-swap would abandon
@@ -645,7 +657,7 @@ func (s *Service) applyInPlace(ctx context.Context, desired, oldConfig config.Pi
 	ctx = context.WithoutCancel(ctx)
 
 	if err := s.transactionalImport(ctx, desired); err != nil {
-		return false, err
+		return false, nil, err
 	}
 
 	var swapped []string
@@ -664,17 +676,17 @@ func (s *Service) applyInPlace(ctx context.Context, desired, oldConfig config.Pi
 			// Not swappable live. Signal a restart fallback; no rollback needed —
 			// the restart tears down and rebuilds every node from the committed
 			// config anyway.
-			return false, nil
+			return false, swapped, nil
 		case err != nil:
 			// The new processor failed to open; the old one is still running
 			// (open-before-teardown). Roll back so store and live agree on the
 			// old config, then surface the error.
 			s.rollbackInPlace(ctx, desired.ID, oldConfig, swapped)
-			return false, cerrors.Errorf("could not apply processor %q to running pipeline %q in place: %w", c.ID, desired.ID, err)
+			return false, nil, cerrors.Errorf("could not apply processor %q to running pipeline %q in place: %w", c.ID, desired.ID, err)
 		}
 		swapped = append(swapped, c.ID)
 	}
-	return true, nil
+	return true, swapped, nil
 }
 
 // rollbackInPlace best-effort undoes a partial in-place apply after a mid-diff
